@@ -490,10 +490,13 @@ def run_property(prop, tier: str, seed: int) -> int:
                 else:
                     harness_errors.append(payload)
     # custom phases run in the parent (they manage their own processes)
+    total.extra["pool_wall_s"] = round(time.time() - t0, 1)
     for pidx, ph in enumerate(phases):
         if ph.kind == "custom":
+            tc = time.time()
             try:
                 ph.fn(total, seed)
+                total.extra[f"{ph.name}_wall_s"] = round(time.time() - tc, 1)
             except HarnessError as e:
                 harness_errors.append(f"{ph.name}: {e}")
             except Exception as e:
